@@ -14,7 +14,7 @@ CONSTANTS
   Crds = {"absent", "stale", "current"}
   Whcs = {"absent", "stale", "current"}
   Kinds = {"prov", "conf", "func"}
-  Hosts = {"", "h", "hp"}
+  Hosts = {"", "h", "hp", "hd"}
   ReqVers = {"t1", "t2", "d1"}
   InstNames = {"def", "custom"}
   InstVers = {"t1", "d2"}
